@@ -205,7 +205,8 @@ impl Array6 {
         let kxq1 = cursor.read_f64_le().map_err(insufficient_data("kxq1"))?;
 
         // Read num_at_cur_min (for Array6, this is num_zeros since cur_min=0)
-        let num_zeros = cursor
+        // (redundant: recomputed from the registers below, so that it cannot disagree with them)
+        let _num_zeros = cursor
             .read_u32_le()
             .map_err(insufficient_data("num_zeros"))?;
         let _aux_count = cursor
@@ -227,12 +228,14 @@ impl Array6 {
         estimator.set_kxq1(kxq1);
         estimator.set_out_of_order(ooo);
 
-        Ok(Self {
+        let mut array = Self {
             lg_config_k,
             bytes: data.into_boxed_slice(),
-            num_zeros,
+            num_zeros: 0,
             estimator,
-        })
+        };
+        array.num_zeros = (0..k).filter(|&slot| array.get_raw(slot) == 0).count() as u32;
+        Ok(array)
     }
 
     /// Serialize Array6 to bytes
